@@ -91,7 +91,6 @@ structure State (α : Type) where
 structure Params (α : Type) where
   dataVal : Key → α             -- value held by `DataNode k`
   apply : Key → List α → α      -- `dsk[k](data)` as a function of the dependency values (in `deps` order)
-  truthy : α → Bool             -- Python truthiness (`not cache.get(key)`)
   fails : Key → Bool            -- the task raises when executed
 
 structure Cfg where
@@ -151,18 +150,22 @@ def taskDepsLoop {α : Type} (key : Key) : List Key → InitSt α → InitSt α
 def initVisit {α : Type} (g : Graph) (P : Params α) (key : Key) (s : InitSt α) : Except Err (InitSt α) :=
   let s := { s with seen := key :: s.seen, dependents := touch s.dependents key,
                     waitingData := touch s.waitingData key, dependencies := touch s.dependencies key }
-  match g.get? key with
-  | none =>
-    if ((s.dependents.get? key).getD []) ≠ [] ∧ ¬ ((s.cache.get? key).map P.truthy).getD false then
-      .error (.missingDep key)
-    else .ok s
-  | some .data =>
-    dataNodeLoop key ((s.dependents.get? key).getD []) { s with cache := s.cache.set key (P.dataVal key) }
-  | some (.task deps) =>
-    let wait := deps.filter (fun d => !s.cache.has d)
-    let s := if wait = [] then { s with readySet := sadd key s.readySet }
-             else { s with waiting := s.waiting.set key wait }
-    .ok (taskDepsLoop key deps s)
+  -- `if key in cache: continue`: a result the caller passed in through `cache=` is available - nothing to run and
+  -- nobody waits for it.  (The traversal itself puts a key into the cache only when it visits it, and visits it once,
+  -- so with an empty start cache this branch is dead: `initVisit_data`, `initVisit_task`.)
+  if s.cache.has key then .ok s
+  else
+    match g.get? key with
+    | none =>
+      -- `if dependents[key]: raise ValueError("Missing dependency …")`
+      if ((s.dependents.get? key).getD []) ≠ [] then .error (.missingDep key) else .ok s
+    | some .data =>
+      dataNodeLoop key ((s.dependents.get? key).getD []) { s with cache := s.cache.set key (P.dataVal key) }
+    | some (.task deps) =>
+      let wait := deps.filter (fun d => !s.cache.has d)
+      let s := if wait = [] then { s with readySet := sadd key s.readySet }
+               else { s with waiting := s.waiting.set key wait }
+      .ok (taskDepsLoop key deps s)
 
 def initLoop {α : Type} (g : Graph) (P : Params α) : Nat → InitSt α → Except Err (InitSt α)
   | 0, s => if s.stack = [] then .ok s else .error .fuel
@@ -196,6 +199,20 @@ def sortDesc (prio : Key → Nat) (l : List Key) : List Key := isort (fun a b =>
 
 def startState {α : Type} (cfg : Cfg) (P : Params α) : Except Err (State α) :=
   match initLoop cfg.g P (initFuel cfg) { stack := cfg.results } with
+  | .error e => .error e
+  | .ok s =>
+    .ok { dependencies := s.dependencies, dependents := s.dependents, waiting := s.waiting,
+          waitingData := s.waitingData, cache := s.cache, ready := sortAsc cfg.prio s.readySet }
+
+/-- `start_state_from_dask(dsk, cache=cache0, keys=keys)` with a caller-supplied (warm) cache; `keys = none` is the
+`keys is None` default: `list(set(dsk) - set(cache))`.  `startState` is the case `cache0 = []`, `keys = cfg.results`
+(what `get_async` passes when no `cache=` is given). -/
+def startStateC {α : Type} (cfg : Cfg) (P : Params α) (cache0 : Map α) (keys : Option (List Key)) : Except Err (State α) :=
+  let ks := match keys with
+    | some ks => ks
+    | none => (cfg.g.map (·.1)).filter (fun k => !cache0.has k)
+  match initLoop cfg.g P (ks.length + (cfg.g.map (fun p => match p.2 with | .data => 0 | .task deps => deps.length)).sum + 1)
+      { stack := ks, cache := cache0 } with
   | .error e => .error e
   | .ok s =>
     .ok { dependencies := s.dependencies, dependents := s.dependents, waiting := s.waiting,
@@ -409,6 +426,21 @@ structure Run (α : Type) where
 def getAsync {α : Type} (cfg : Cfg) (P : Params α) (choices : List Nat) : Run α :=
   let empty : State α := {}
   match startState cfg P with
+  | .error e => { log := [(.start, empty), (.finish true, empty)], outcome := .error e, final := empty }
+  | .ok st0 =>
+    let log0 := [(Ev.start, empty), (Ev.startState, st0)]
+    if !st0.waiting.isEmpty ∧ st0.ready.isEmpty then
+      { log := log0 ++ [(.finish true, st0)], outcome := .error .noAccessibleJobs, final := st0 }
+    else
+      match mainLoop cfg P choices { st := st0, log := log0 } with
+      | .error e => { log := log0 ++ [(.finish true, st0)], outcome := .error e, final := st0 }
+      | .ok (s, .done) => { log := s.log ++ [(.finish false, s.st)], outcome := .ok .done, final := s.st }
+      | .ok (s, o) => { log := s.log ++ [(.finish true, s.st)], outcome := .ok o, final := s.st }
+
+/-- `get_async(…, cache=cache0)`: the same call on a caller-supplied cache -/
+def getAsyncC {α : Type} (cfg : Cfg) (P : Params α) (cache0 : Map α) (choices : List Nat) : Run α :=
+  let empty : State α := {}
+  match startStateC cfg P cache0 (some cfg.results) with
   | .error e => { log := [(.start, empty), (.finish true, empty)], outcome := .error e, final := empty }
   | .ok st0 =>
     let log0 := [(Ev.start, empty), (Ev.startState, st0)]
